@@ -475,7 +475,10 @@ impl Divan {
     pub fn config_with_args(mut self) -> Self {
         let mut command = crate::cli::command();
 
+        #[cfg(not(divan_verif))]
         let mut matches = command.get_matches_mut();
+        #[cfg(divan_verif)]
+        let mut matches = crate::__verif::cli::matches(&mut command);
         let is_exact = matches.get_flag("exact");
 
         // Insert filters.
@@ -486,6 +489,8 @@ impl Divan {
                 } else {
                     Filter::Regex(Regex::new(&filter).unwrap_or_else(|error| {
                         let kind = clap::error::ErrorKind::ValueValidation;
+                        #[cfg(divan_verif)]
+                        crate::__verif::cli::reject(&error);
                         command.error(kind, error).exit();
                     }))
                 }
